@@ -43,6 +43,7 @@ inductive FCond where
 inductive PItem where
   | op (o : FOp)
   | assume (c : FCond) (v : Bool)
+  | call (entry : Nat) (args : List Nat)   -- call entry #i of the table; args = caller registers of the callee's parameters
   deriving Repr, DecidableEq, Inhabited
 
 structure FPath where
@@ -89,11 +90,40 @@ def execPath (bools : List Bool) : List PItem → Regs → Option Regs
   | [], r => some r
   | .op o :: rest, r => execPath bools rest (stepF r o)
   | .assume c v :: rest, r => if condF r bools c == v then execPath bools rest r else none
+  | .call _ _ :: _, _ => none     -- inlined programs contain no calls
 
 /-- run an entry: the (unique) path whose assumptions hold -/
 def runEntry (e : Entry) (params : List Nat) (bools : List Bool) : Option (Regs × Option Bool) :=
   let r0 : Regs := params ++ List.replicate (e.nreg - params.length) 0
   e.paths.findSome? fun p => (execPath bools p.items r0).map fun r => (r, p.ret)
+
+/-! ### call-structured programs (Gen.FormulasC) -/
+
+/-- copy the callee's parameter registers back into the caller's argument registers, in order -/
+def writeBack : Regs → List Nat → List Nat → Regs
+  | r, a :: as, v :: vs => writeBack (rset r a v) as vs
+  | r, _, _ => r
+
+/-- run a path whose calls are answered by `callF entry argumentValues` (the callee's final parameter values) -/
+def execPathWith (callF : Nat → List Nat → Option (List Nat)) (bools : List Bool) : List PItem → Regs → Option Regs
+  | [], r => some r
+  | .op o :: rest, r => execPathWith callF bools rest (stepF r o)
+  | .assume c v :: rest, r => if condF r bools c == v then execPathWith callF bools rest r else none
+  | .call i args :: rest, r =>
+    match callF i (args.map (rget r)) with
+    | none => none
+    | some outs => execPathWith callF bools rest (writeBack r args outs)
+
+/-- run entry #i of a table with a bound on the call depth -/
+def runEntryC (table : List Entry) : Nat → Nat → List Nat → List Bool → Option (Regs × Option Bool)
+  | 0, _, _, _ => none
+  | fuel+1, i, params, bools =>
+    match table[i]? with
+    | none => none
+    | some e =>
+      let r0 : Regs := params ++ List.replicate (e.nreg - params.length) 0
+      let callF := fun j args => (runEntryC table fuel j args []).map fun (r, _) => r.take args.length
+      e.paths.findSome? fun p => (execPathWith callF bools p.items r0).map fun r => (r, p.ret)
 
 /-! ### abstract interpretation: magnitudes and normalisation (C16) -/
 
@@ -154,6 +184,7 @@ def absPath : List PItem → AState → Option AState
   | [], σ => some σ
   | .op o :: rest, σ => do let σ' ← stepA σ o; absPath rest σ'
   | .assume c _ :: rest, σ => if condA σ c then absPath rest σ else none
+  | .call _ _ :: _, _ => none
 
 /-- all paths of an entry pass from the input contract, and the listed output registers end normalised -/
 def Entry.absOK (e : Entry) (σ0 : AState) (outs : List Nat) : Bool :=
@@ -169,6 +200,7 @@ def absPathDiag : List PItem → AState → Nat → Option Nat
       | none => some k
       | some σ' => absPathDiag rest σ' (k + 1)
   | .assume c _ :: rest, σ, k => if condA σ c then absPathDiag rest σ (k + 1) else some k
+  | .call _ _ :: _, _, k => some k
 
 /-! ### exponent tracking for addition chains -/
 
@@ -190,5 +222,6 @@ def expPath : List PItem → List (Option Nat) → List (Option Nat)
   | [], σ => σ
   | .op o :: rest, σ => expPath rest (stepE σ o)
   | .assume _ _ :: rest, σ => expPath rest σ
+  | .call _ _ :: rest, σ => expPath rest σ
 
 end Secp.FOp
